@@ -517,7 +517,8 @@ ATTEMPTED = ["C17.attempted.average_is_the_time_weighted_mean_of_the_observation
 
 
 def main(tier):
-    bounds = {"paths": "length <= 3 (quick) / 4 (thorough), <= 2 assets; strikes, barriers, thresholds, notionals, times arbitrary reals (times increasing)",
+    bounds = {"histories_and_variants": 'default-time underlyings valuing two symbolic paths (2 times, 2 names) in a row; one underlying object shared by two products',
+              "paths": "length <= 3 (quick) / 4 (thorough), <= 2 assets; strikes, barriers, thresholds, notionals, times arbitrary reals (times increasing)",
               "outside": "LookBack (raises by construction), Rainbow, CDS (C19), rate payoffs (Bond/Cap/Ratchet/Swaption), MaximumOfPerformances under LOG"}
     return run_check(PID, tier, harnesses(tier), expect=EXPECT, attempted=ATTEMPTED, bounds=bounds,
                      assumptions=COMMON_ASSUMPTIONS + ["exp/log as UFs with exp(log x) = x, log(exp x) = x, monotone"])
